@@ -80,7 +80,7 @@ Unres(e) == "unresolved" \in DOMAIN In(e)
 Evs(e, name) == {i \in 1..Len(e.out) : e.out[i].e = name}
 NewNet(e) == {i \in 1..Len(e.net) : e.net[i].same_as = "none"}
 SubIdx(mm, rid) == FirstIdx(mm.sub, LAMBDA s : s.rid = rid)
-IsExt(rid) == \E i \in 1..9 : rid = Name("r", i)
+IsExt(rid) == \E i \in 1..99 : rid = Name("r", i)
 
 \* ---- ledger update
 RECURSIVE UpdSub(_, _, _)
